@@ -66,12 +66,12 @@ Definition rnd_wf (r : rnd) : Prop :=
   | RSample vals counts _ =>
       let c := counts_of vals counts in
       length c = length vals /\ Forall (fun x => 0 <= x) c /\ 0 < total c
-  | RText _ => True
+  | RText _ _ => True
   end.
 
 Definition prob_of (r : rnd) : Q :=
   match r with
-  | RRangeI _ _ p _ | RRangeF _ _ p _ | RDate _ _ _ p | RValue _ p | RSample _ _ p | RText p => p
+  | RRangeI _ _ p _ | RRangeF _ _ p _ | RDate _ _ _ p | RValue _ p | RSample _ _ p | RText _ p => p
   end.
 (* what generate() answers when the value is skipped *)
 Definition none_of (r : rnd) : value :=
@@ -87,7 +87,7 @@ Definition in_range (r : rnd) (raw : value) : Prop :=
   | RValue v _ => raw = v
   | RSample vals counts _ =>
       exists c, In (raw, c) (combine vals (counts_of vals counts)) /\ 0 < c
-  | RText _ => exists t, raw = VStr t
+  | RText arg _ => exists t, raw = VStr (arg ++ t)   (* fabulist called with the declared arguments *)
   end.
 
 (* the values randomizer r may answer: inside the declared range – unless its
@@ -116,7 +116,7 @@ Qed.
 Lemma gen_may r s : rnd_wf r -> rnd_may r (fst (gen r s)).
 Proof.
   intros Hwf. unfold rnd_may.
-  destruct r as [lo hi p none | lo hi p none | mn days stamp p | v p | vals counts p | p];
+  destruct r as [lo hi p none | lo hi p none | mn days stamp p | v p | vals counts p | arg p];
     cbn [rnd_wf prob_of none_of in_range gen] in *;
     pose proof (skip_true p s) as Hsk; pose proof (skip_false p s) as Hns;
     destruct (skip_value p s) as [sk s1]; cbn [fst] in Hsk, Hns;
@@ -940,7 +940,7 @@ Definition rnd_wfb (r : rnd) : bool :=
   | RSample vals counts _ =>
       let c := counts_of vals counts in
       Nat.eqb (length c) (length vals) && forallb (fun x => 0 <=? x) c && (0 <? total c)
-  | RText _ => true
+  | RText _ _ => true
   end.
 Definition sval_wfb (sv : sval) : bool := match sv with SV _ => true | SR r => rnd_wfb r end.
 Definition spec_wfb (sp : spec) : bool := forallb (fun kv => sval_wfb (snd kv)) sp.
@@ -955,7 +955,7 @@ Lemma ctor_ok_wf r : ctor_ok r = true ->
 Proof.
   assert (P : forall p, Qle_bool 0 p && Qle_bool p 1 = true -> (0 <= p)%Q /\ (p <= 1)%Q).
   { intros p H. apply andb_true_iff in H. destruct H as [H1 H2]. split; apply Qle_bool_iff; assumption. }
-  destruct r as [lo hi p none | lo hi p none | mn days stamp p | v p | vals counts p | p];
+  destruct r as [lo hi p none | lo hi p none | mn days stamp p | v p | vals counts p | arg p];
     cbn [ctor_ok prob_of rnd_wf]; intros H.
   - apply andb_true_iff in H. destruct H as [H H']. destruct (P p H) as [P0 P1].
     refine (conj P0 (conj P1 _)). apply Z.ltb_lt. exact H'.
@@ -970,7 +970,7 @@ Qed.
 
 Lemma rnd_wfb_ok r : rnd_wfb r = true -> rnd_wf r.
 Proof.
-  destruct r as [lo hi p none | lo hi p none | mn days stamp p | v p | vals counts p | p];
+  destruct r as [lo hi p none | lo hi p none | mn days stamp p | v p | vals counts p | arg p];
     cbn [rnd_wfb rnd_wf]; intros H; try exact Logic.I.
   - apply Z.ltb_lt. exact H.
   - apply Qnot_le_lt. intros Hle. apply Qle_bool_iff in Hle. rewrite Hle in H. discriminate.
